@@ -28,7 +28,7 @@ type c09Case struct {
 	Rules []c09Rule  `json:"rules"`
 	Cache int        `json:"cache"`
 	Hosts []c09Host  `json:"hosts"`
-	Qs    [][3]int   `json:"qs"` // host index, protocol, port
+	Qs    [][3]int   `json:"qs"` // host index, protocol, port (engx: host index, entry point 1 TCP / 2 UDP / 3 CheckUDP, port)
 	Valid bool       `json:"valid"`
 	// eng: the rule file as written by the generator (hex), and the line number of every rule in it
 	Text  string     `json:"text"`
@@ -61,6 +61,8 @@ func TestVerifC09(t *testing.T) {
 			c09Acl(c, res)
 		case "eng":
 			c09Eng(c, res)
+		case "engx":
+			c09EngX(c, res)
 		case "file":
 			c09File(c, res)
 		case "ipstr":
